@@ -315,6 +315,12 @@ func c05comboOptions() []c05opt {
 }
 
 var c05comboProbes = []string{
+	// names that are literal constants (no local slot) where a statement stores to a name: catch identifier, for-in
+	// variables, destructuring, parameters of a nested function, assignment
+	"try {\n  const e = 1\n} catch e {\n}", "a := 5\ntry {\n  const e = 1\n  throw \"x\"\n} catch e {\n}\nreturn a",
+	"f := func() {\n  try {\n    const e = 1\n  } catch e {\n  }\n}\nreturn f()", "const e = 1\ntry {\n  throw 2\n} catch e {\n  return e\n}",
+	"const k = 1\nfor k in [1, 2] {\n}\nreturn k", "for i := 0; i < 1; i++ {\n  const v = 1\n  for k, v in {a: 1} {\n  }\n}", "const a = 1\na, b := [2, 3]\nreturn a",
+	"const a = 1\nf := func(a) { return a }\nreturn f(2)", "try {\n  const e = iota\n  const g = e\n} catch g {\n} finally {\n  const g = 2\n}",
 	"return true && false", "x := 1 || 2\nreturn x", "return \"s\" && 0 ? 1 : 2", "a := 1\nif a > 0 && 2 > 1 {\n  a = 2\n}\nreturn a",
 	"for i := 0; i < 3; i++ {\n  if i == 1 {\n    continue\n  }\n}\nreturn 1", "try {\n  throw 1\n} catch e {\n  return e\n} finally {\n}",
 	"const k = 2\nf := func(a, ...b) {\n  return a ? b : k * 3\n}\nreturn f(1 + 2, 3)", "m := import(\"good\")\nreturn m",
@@ -342,6 +348,10 @@ func c05passes(src string, limit int) (n int, ok bool) {
 
 // compileGuarded runs fn under recover and a watchdog.
 func compileGuarded(fn func() (*ugo.Bytecode, error)) (bc *ugo.Bytecode, err error, pan string, top string, hung bool) {
+	return compileGuardedFor(fn, 60*time.Second)
+}
+
+func compileGuardedFor(fn func() (*ugo.Bytecode, error), limit time.Duration) (bc *ugo.Bytecode, err error, pan string, top string, hung bool) {
 	done := make(chan struct{})
 	go func() {
 		defer close(done)
@@ -355,7 +365,7 @@ func compileGuarded(fn func() (*ugo.Bytecode, error)) (bc *ugo.Bytecode, err err
 	}()
 	select {
 	case <-done:
-	case <-time.After(60 * time.Second):
+	case <-time.After(limit):
 		hung = true
 	}
 	return
@@ -423,10 +433,11 @@ func (m c05) one(c *core.Ctx, input []byte, opt c05opt, class string) (reached b
 		c.Count("symtab.disabled")
 	}
 	if hung {
-		// retry once alone
-		_, _, _, _, hung2 := compileGuarded(func() (*ugo.Bytecode, error) { return run(input) })
+		// retry with a deadline that no load on the machine explains (inputs are <= 64 KiB and compile in milliseconds to
+		// seconds); a single firing of the 60 s watchdog is only counted
+		_, _, _, _, hung2 := compileGuardedFor(func() (*ugo.Bytecode, error) { return run(input) }, 10*time.Minute)
 		if hung2 {
-			c.Violation("C05|hang|"+class, "Compile does not terminate within 60 s (twice) on a "+fmt.Sprint(len(input))+"-byte input", wit("hang", ""))
+			c.Violation("C05|hang|"+class, "Compile does not terminate (60 s, then 10 min) on a "+fmt.Sprint(len(input))+"-byte input", wit("hang", ""))
 		} else {
 			c.Inconclusive("compile watchdog fired once: " + class)
 		}
